@@ -18,7 +18,7 @@
 use nvc::Report;
 use query_router::{QueryResult, QueryRouter};
 use rayon::prelude::*;
-use relational_engine::{Column, ColumnType, ColumnarScanOptions, Condition, CursorOptions, RelationalEngine, Row, Schema, Value};
+use relational_engine::{AggregateExpr, AggregateValue, Column, ColumnType, ColumnarScanOptions, Condition, CursorOptions, QueryOptions, RelationalEngine, Row, Schema, Value};
 use serde::{Deserialize, Serialize};
 use serde_json::json;
 use std::cell::{Cell, RefCell};
@@ -316,6 +316,8 @@ enum Op {
     Del(u8),
     Hash(u8),
     Btree(u8),
+    /// one `batch_insert` of five rows (insert templates); part B only, not in the BFS alphabet
+    Batch([u8; 5]),
 }
 fn show_op(op: Op, before: &Model) -> String {
     match op {
@@ -331,6 +333,7 @@ fn show_op(op: Op, before: &Model) -> String {
         Op::Del(c) => format!("delete_rows(where {})", del_conds()[c as usize].show()),
         Op::Hash(c) => format!("{}({})", if before.hash[c as usize] { "drop_index" } else { "create_index" }, COLS[c as usize]),
         Op::Btree(c) => format!("{}({})", if before.btree[c as usize] { "drop_btree_index" } else { "create_btree_index" }, COLS[c as usize]),
+        Op::Batch(ks) => format!("batch_insert([{}])", ks.iter().map(|k| show_op(Op::Ins(*k), before)).collect::<Vec<_>>().join(", ")),
     }
 }
 fn show_seq(seq: &[Op]) -> Vec<String> {
@@ -360,22 +363,26 @@ fn alphabet(ntempl: usize) -> Vec<Op> {
 }
 
 fn matching(m: &Model, c: &Condition, selftest: bool) -> Vec<u64> {
-    m.rows
-        .iter()
-        .filter(|(id, v)| {
-            let r = mrow(**id, v);
-            let mut t = c.evaluate(&r);
+    let rows: Vec<Row> = m.rows.iter().map(|(id, v)| mrow(*id, v)).collect();
+    matching_rows(&rows, c, selftest)
+}
+/// the reference answer: the ids of the reference rows for which `Condition::evaluate` is true
+fn matching_rows(rows: &[Row], c: &Condition, selftest: bool) -> Vec<u64> {
+    rows.iter()
+        .filter(|r| {
+            let r: &Row = r;
+            let mut t = c.evaluate(r);
             if selftest {
                 // deliberately wrong oracle: `i < x` read as `i <= x`
                 if let Condition::Lt(col, val) = c {
                     if col == "i" {
-                        t = Condition::Le(col.clone(), val.clone()).evaluate(&r);
+                        t = Condition::Le(col.clone(), val.clone()).evaluate(r);
                     }
                 }
             }
             t
         })
-        .map(|(id, _)| *id)
+        .map(|r| r.id)
         .collect()
 }
 
@@ -419,6 +426,12 @@ fn apply_model(m: &mut Model, op: Op) -> usize {
         Op::Btree(c) => {
             m.btree[c as usize] = !m.btree[c as usize];
             0
+        }
+        Op::Batch(ks) => {
+            for k in ks {
+                apply_model(m, Op::Ins(k));
+            }
+            ks.len()
         }
     }
 }
@@ -512,6 +525,16 @@ impl Eng {
                 let col = COLS[c as usize];
                 if before.btree[c as usize] { e.drop_btree_index(t, col) } else { e.create_btree_index(t, col) }.map(|_| 0).map_err(|x| x.to_string())
             }
+            Op::Batch(ks) => {
+                let rows: Vec<HashMap<String, Value>> = ks
+                    .iter()
+                    .map(|k| {
+                        let tp = templates()[*k as usize];
+                        (0..4).filter_map(|c| tp[c].map(|v| (COLS[c].to_string(), v.value()))).collect()
+                    })
+                    .collect();
+                e.batch_insert(t, rows).map(|ids| ids.len()).map_err(|x| x.to_string())
+            }
         }
     }
     /// authoritative rows read straight from the slab (not through any query path)
@@ -577,6 +600,92 @@ fn build(seq: &[Op]) -> (Eng, Model) {
 }
 
 // ------------------------------------------------------------------ violation collection
+/// every public entry point that is driven with a condition (index into `Out::ep`, measured per call)
+const EP_NAMES: [&str; 34] = [
+    "RelationalEngine::select",
+    "RelationalEngine::select_with_options",
+    "RelationalEngine::select_with_projection",
+    "RelationalEngine::select_columnar",
+    "RelationalEngine::select_with_limit",
+    "RelationalEngine::select_iter",
+    "RelationalEngine::select_streaming",
+    "RelationalEngine::select_streaming_builder(batch_size,max_rows)",
+    "RelationalEngine::select_distinct",
+    "RelationalEngine::select_grouped",
+    "RelationalEngine::tx_select",
+    "RelationalEngine::count",
+    "RelationalEngine::count_column",
+    "RelationalEngine::sum",
+    "RelationalEngine::avg",
+    "RelationalEngine::min",
+    "RelationalEngine::max",
+    "RelationalEngine::update",
+    "RelationalEngine::update_with_options",
+    "RelationalEngine::tx_update",
+    "RelationalEngine::delete_rows",
+    "RelationalEngine::delete_rows_with_options",
+    "RelationalEngine::tx_delete",
+    "QueryRouter::execute SELECT * WHERE",
+    "QueryRouter::execute_parsed SELECT * WHERE",
+    "QueryRouter::execute_parsed SELECT COUNT(*),COUNT(col).. WHERE",
+    "QueryRouter::execute_parsed SELECT SUM/AVG.. WHERE",
+    "QueryRouter::execute_parsed SELECT MIN/MAX.. WHERE",
+    "QueryRouter::execute_parsed SELECT b,COUNT.. WHERE .. GROUP BY b",
+    "QueryRouter::execute_parsed UPDATE .. WHERE",
+    "QueryRouter::execute_parsed DELETE FROM .. WHERE",
+    "QueryRouter::execute UPDATE .. WHERE",
+    "QueryRouter::execute DELETE .. WHERE",
+    "RelationalEngine::batch_insert (history)",
+];
+const EP_SELECT: usize = 0;
+const EP_SELECT_OPTS: usize = 1;
+const EP_SELECT_PROJ: usize = 2;
+const EP_COLUMNAR: usize = 3;
+const EP_LIMIT: usize = 4;
+const EP_ITER: usize = 5;
+const EP_STREAMING: usize = 6;
+const EP_BUILDER: usize = 7;
+const EP_DISTINCT: usize = 8;
+const EP_GROUPED: usize = 9;
+const EP_TX_SELECT: usize = 10;
+const EP_COUNT: usize = 11;
+const EP_COUNT_COLUMN: usize = 12;
+const EP_SUM: usize = 13;
+const EP_AVG: usize = 14;
+const EP_MIN: usize = 15;
+const EP_MAX: usize = 16;
+const EP_UPDATE: usize = 17;
+const EP_UPDATE_OPTS: usize = 18;
+const EP_TX_UPDATE: usize = 19;
+const EP_DELETE: usize = 20;
+const EP_DELETE_OPTS: usize = 21;
+const EP_TX_DELETE: usize = 22;
+const EP_TEXT_LEGACY: usize = 23;
+const EP_TEXT_AST: usize = 24;
+const EP_TEXT_AGG: usize = 25; // +variant 0..3
+const EP_TEXT_UPDATE_AST: usize = 29;
+const EP_TEXT_DELETE_AST: usize = 30;
+const EP_TEXT_UPDATE_LEGACY: usize = 31;
+const EP_TEXT_DELETE_LEGACY: usize = 32;
+const EP_BATCH_INSERT: usize = 33;
+
+struct Counts([u64; 34]);
+impl Default for Counts {
+    fn default() -> Self {
+        Counts([0; 34])
+    }
+}
+impl std::ops::Index<usize> for Counts {
+    type Output = u64;
+    fn index(&self, k: usize) -> &u64 {
+        &self.0[k]
+    }
+}
+impl std::ops::IndexMut<usize> for Counts {
+    fn index_mut(&mut self, k: usize) -> &mut u64 {
+        &mut self.0[k]
+    }
+}
 #[derive(Default)]
 struct Out {
     viols: Vec<(String, String, serde_json::Value)>,
@@ -588,8 +697,21 @@ struct Out {
     text_err: u64,
     skipped_limit: u64,
     outcomes: HashSet<Vec<u64>>,
+    /// calls per entry point (EP_NAMES)
+    ep: Counts,
+    /// text entry points only: statements that were answered in the expected shape and judged
+    judged: Counts,
+    /// router answers whose shape the harness does not understand (counted, not judged)
+    text_unjudged: u64,
+    /// count_column calls that ran on an index path while the driving leaf alone selects more rows
+    /// than the whole condition (the index candidates are a strict superset of the answer)
+    cc_superset: u64,
 }
 impl Out {
+    fn hit(&mut self, ep: usize) {
+        self.calls += 1;
+        self.ep[ep] += 1;
+    }
     fn viol(&mut self, sig: String, msg: String, seq: &[Op], extra: serde_json::Value) {
         let n = self.by_sig.entry(sig.clone()).or_insert(0);
         *n += 1;
@@ -618,6 +740,12 @@ impl Out {
         self.text_ok += o.text_ok;
         self.text_err += o.text_err;
         self.skipped_limit += o.skipped_limit;
+        self.text_unjudged += o.text_unjudged;
+        self.cc_superset += o.cc_superset;
+        for k in 0..self.ep.0.len() {
+            self.ep[k] += o.ep[k];
+            self.judged[k] += o.judged[k];
+        }
         if self.outcomes.len() < 100_000 {
             self.outcomes.extend(o.outcomes);
         }
@@ -746,7 +874,14 @@ fn classify(columnar_call: bool, cx: &Cx, m: &Model, exp: &[u64], got: &[u64]) -
 struct Ctx<'a> {
     seq: &'a [Op],
     m: &'a Model,
+    /// the reference rows of `m` in the engine's row type (built once per state)
+    rows: Vec<Row>,
     selftest: bool,
+}
+impl<'a> Ctx<'a> {
+    fn new(seq: &'a [Op], m: &'a Model, selftest: bool) -> Ctx<'a> {
+        Ctx { seq, m, rows: m.rows.iter().map(|(id, v)| mrow(*id, v)).collect(), selftest }
+    }
 }
 fn ids_of(rows: &[Row]) -> Vec<u64> {
     rows.iter().map(|r| r.id).collect()
@@ -758,20 +893,25 @@ fn sorted(mut v: Vec<u64>) -> Vec<u64> {
 fn content_ok(rows: &[Row], m: &Model, proj: Option<&[&str]>) -> bool {
     rows.iter().all(|r| {
         let Some(mv) = m.rows.get(&r.id) else { return true };
-        let mut want: Vec<(String, Val)> = (0..4).filter(|k| proj.is_none_or(|p| p.contains(&COLS[*k]))).map(|k| (COLS[k].to_string(), mv[k])).collect();
-        let got: Option<Vec<(String, Val)>> = r.values.iter().map(|(c, v)| Val::from_value(v).map(|x| (c.clone(), x))).collect();
-        got.is_some_and(|mut g| {
-            g.sort();
-            want.sort();
-            g == want
-        })
+        let want_n = (0..4).filter(|k| proj.is_none_or(|p| p.contains(&COLS[*k]))).count();
+        // every returned cell is a wanted column with the table's value, and no column twice / missing
+        let mut seen = [false; 4];
+        r.values.len() == want_n
+            && r.values.iter().all(|(c, v)| {
+                let Some(k) = (0..4).find(|k| COLS[*k] == c.as_str()) else { return false };
+                if seen[k] || !proj.is_none_or(|p| p.contains(&COLS[k])) {
+                    return false;
+                }
+                seen[k] = true;
+                Val::from_value(v) == Some(mv[k])
+            })
     })
 }
 fn qjson(cx: &Cx, strategy: &str, exp: &[u64], got: &[u64]) -> serde_json::Value {
     json!({"query": cx.show(), "cond_code": cx, "strategy": strategy, "expected_ids": exp, "got_ids": got})
 }
-fn check_ids(out: &mut Out, ctx: &Ctx, strategy: &str, vectorised: bool, cx: &Cx, exp: &[u64], got: Result<Vec<u64>, String>, ordered: bool) {
-    out.calls += 1;
+fn check_ids(out: &mut Out, ctx: &Ctx, ep: usize, strategy: &str, vectorised: bool, cx: &Cx, exp: &[u64], got: Result<Vec<u64>, String>, ordered: bool) {
+    out.hit(ep);
     match got {
         Err(e) => out.viol(format!("c04:{strategy}:error"), format!("{strategy}({}) failed: {e}", cx.show()), ctx.seq, qjson(cx, strategy, exp, &[])),
         Ok(g) => {
@@ -783,11 +923,64 @@ fn check_ids(out: &mut Out, ctx: &Ctx, strategy: &str, vectorised: bool, cx: &Cx
     }
 }
 
-fn read_battery(out: &mut Out, ctx: &Ctx, eng: &Eng, cx: &Cx, level: u8) {
+/// Signature of a wrong aggregate. `sel` = what plain `select` returns for the same condition.
+/// If `select` itself loses/gains rows the cause is the lookup and is named by `classify`.
+fn agg_sig(kind: &str, cx: &Cx, m: &Model, exp: &[u64], sel: Option<&[u64]>, over: Option<bool>) -> String {
+    match sel {
+        Some(s) if s != exp => classify(false, cx, m, exp, s),
+        _ => {
+            let path = index_path(cx, m);
+            if kind == "count_column" && path.is_some() && over == Some(true) {
+                // select (same lookup, same candidates) is right and the scan code is the same without
+                // an index: rows that fail the condition were counted among the index candidates
+                "c04:count_column:index-candidates-not-rechecked".into()
+            } else if kind == "count_column" {
+                format!("c04:count_column:{}:{}:{}-although-select-is-right", path.unwrap_or("scan"), shape(cx), match over {
+                    Some(true) => "overcount",
+                    Some(false) => "undercount",
+                    None => "differs",
+                })
+            } else {
+                format!("c04:{kind}:differs-although-select-is-right:{}", path.unwrap_or("scan"))
+            }
+        }
+    }
+}
+fn nonnull_of(m: &Model, ids: &[u64], col: usize) -> u64 {
+    ids.iter().filter(|id| m.rows.get(id).is_some_and(|r| r[col] != Val::Null)).count() as u64
+}
+/// count_column(col, cx) against the reference: rows satisfying the condition whose `col` is not NULL
+fn check_count_column(out: &mut Out, ctx: &Ctx, eng: &Eng, cx: &Cx, exp: &[u64], sel: Option<&[u64]>, col: usize) {
+    out.hit(EP_COUNT_COLUMN);
+    if let (Some(_), Some(d)) = (index_path(cx, ctx.m), driving_atom(cx, ctx.m)) {
+        if matching_rows(&ctx.rows, &d.cond(), false).len() > exp.len() {
+            out.cc_superset += 1;
+        }
+    }
+    let want = nonnull_of(ctx.m, exp, col);
+    match eng.e().count_column(&eng.t, COLS[col], cx.cond()) {
+        Ok(n) if n == want => {}
+        Ok(n) => {
+            // the same number over the rows `select` returns: then the lookup is the cause
+            let via_select = sel.filter(|s| nonnull_of(ctx.m, s, col) == n);
+            let sig = agg_sig("count_column", cx, ctx.m, exp, via_select.or(if sel == Some(exp) { sel } else { None }), Some(n > want));
+            let mut rj = qjson(cx, "count_column", exp, &[]);
+            rj["column"] = json!(COLS[col]);
+            rj["got"] = json!(n);
+            rj["expected"] = json!(want);
+            out.viol(sig, format!("count_column({}, where {}) = {n}; {} rows satisfy the condition ({exp:?}) and {want} of them have a non-NULL {}", COLS[col], cx.show(), exp.len(), COLS[col]), ctx.seq, rj);
+        }
+        Err(x) => out.viol("c04:count_column:error".into(), format!("count_column({}, where {}) failed: {x}", COLS[col], cx.show()), ctx.seq, qjson(cx, "count_column", exp, &[])),
+    }
+}
+
+/// `rot` picks the column counted by count_column when `all_cols` is off (it advances with every
+/// condition and with the depth of the state, so every column meets every condition)
+fn read_battery(out: &mut Out, ctx: &Ctx, eng: &Eng, cx: &Cx, level: u8, rot: usize, all_cols: bool) {
     let e = eng.e();
     let t = eng.t.as_str();
     let c = cx.cond();
-    let exp = matching(ctx.m, &c, ctx.selftest);
+    let exp = matching_rows(&ctx.rows, &c, ctx.selftest);
     out.evals += 1;
     if !exp.is_empty() && exp.len() < ctx.m.rows.len() {
         out.nontrivial += 1;
@@ -802,8 +995,8 @@ fn read_battery(out: &mut Out, ctx: &Ctx, eng: &Eng, cx: &Cx, level: u8) {
         }
     }
     let sel: Option<Vec<u64>> = r.as_ref().ok().map(|x| ids_of(x));
-    check_ids(out, ctx, "select", false, cx, &exp, r.map(|x| ids_of(&x)).map_err(|x| x.to_string()), false);
-    out.calls += 1;
+    check_ids(out, ctx, EP_SELECT, "select", false, cx, &exp, r.map(|x| ids_of(&x)).map_err(|x| x.to_string()), false);
+    out.hit(EP_COUNT);
     match e.count(t, c.clone()) {
         Ok(n) if n as usize == exp.len() => {}
         Ok(n) => {
@@ -816,16 +1009,23 @@ fn read_battery(out: &mut Out, ctx: &Ctx, eng: &Eng, cx: &Cx, level: u8) {
         }
         Err(x) => out.viol("c04:count:error".into(), format!("count({}) failed: {x}", cx.show()), ctx.seq, qjson(cx, "count", &exp, &[])),
     }
+    if all_cols {
+        for col in 0..4 {
+            check_count_column(out, ctx, eng, cx, &exp, sel.as_deref(), col);
+        }
+    } else {
+        check_count_column(out, ctx, eng, cx, &exp, sel.as_deref(), rot % 4);
+    }
     let r = e.select_columnar(t, c.clone(), ColumnarScanOptions { projection: None, prefer_columnar: true });
     if let Ok(rows) = &r {
         if !content_ok(rows, ctx.m, None) {
             out.viol("c04:columnar:row-content".into(), format!("select_columnar({}) returned rows whose values differ from the table", cx.show()), ctx.seq, qjson(cx, "select_columnar", &exp, &[]));
         }
     }
-    check_ids(out, ctx, "select_columnar", true, cx, &exp, r.map(|x| ids_of(&x)).map_err(|x| x.to_string()), false);
+    check_ids(out, ctx, EP_COLUMNAR, "select_columnar", true, cx, &exp, r.map(|x| ids_of(&x)).map_err(|x| x.to_string()), false);
     if level >= 1 {
         let r = e.select_streaming(t, c.clone()).map(|x| x.map(|r| r.id).map_err(|e| e.to_string())).collect::<Result<Vec<u64>, String>>();
-        check_ids(out, ctx, "select_streaming", false, cx, &exp, r, false);
+        check_ids(out, ctx, EP_STREAMING, "select_streaming", false, cx, &exp, r, false);
     }
     if level >= 2 {
         let r = e.select_columnar(t, c.clone(), ColumnarScanOptions { projection: Some(vec!["s".into(), "i".into()]), prefer_columnar: true });
@@ -834,11 +1034,11 @@ fn read_battery(out: &mut Out, ctx: &Ctx, eng: &Eng, cx: &Cx, level: u8) {
                 out.viol("c04:columnar:projection-content".into(), format!("select_columnar({}, projection [s,i]) returned wrong values", cx.show()), ctx.seq, qjson(cx, "select_columnar+projection", &exp, &[]));
             }
         }
-        check_ids(out, ctx, "select_columnar+projection", true, cx, &exp, r.map(|x| ids_of(&x)).map_err(|x| x.to_string()), false);
+        check_ids(out, ctx, EP_COLUMNAR, "select_columnar+projection", true, cx, &exp, r.map(|x| ids_of(&x)).map_err(|x| x.to_string()), false);
         let r = e.select_columnar(t, c.clone(), ColumnarScanOptions { projection: None, prefer_columnar: false });
-        check_ids(out, ctx, "select_columnar(prefer_columnar=false)", false, cx, &exp, r.map(|x| ids_of(&x)).map_err(|x| x.to_string()), false);
+        check_ids(out, ctx, EP_COLUMNAR, "select_columnar(prefer_columnar=false)", false, cx, &exp, r.map(|x| ids_of(&x)).map_err(|x| x.to_string()), false);
         let r = e.select_iter(t, c.clone(), CursorOptions::default()).map_err(|x| x.to_string()).and_then(|cur| cur.map(|x| x.map(|r| r.id).map_err(|e| e.to_string())).collect::<Result<Vec<u64>, String>>());
-        check_ids(out, ctx, "select_iter", false, cx, &exp, r, false);
+        check_ids(out, ctx, EP_ITER, "select_iter", false, cx, &exp, r, false);
     }
 }
 
@@ -858,76 +1058,115 @@ fn perms<T: Clone>(v: &[T]) -> Vec<Vec<T>> {
     out
 }
 
-/// sum/min/max: the engine folds over the selected rows; any fold order over exactly the matching
-/// rows is accepted (the statement fixes the row set, not the arithmetic)
-fn agg_battery(out: &mut Out, ctx: &Ctx, eng: &Eng, cx: &Cx) {
+// ------------------------------------------------------------------ aggregate reference
+// The statement fixes the row set, not the arithmetic: a sum/avg/min/max is accepted if SOME fold
+// order over exactly the values of the matching rows yields it.
+fn num(v: &Val) -> Option<f64> {
+    match v {
+        Val::I(i) => Some(*i as f64),
+        Val::F(b) => Some(f64::from_bits(*b)),
+        _ => None,
+    }
+}
+fn feq(a: f64, b: f64) -> bool {
+    (a.is_nan() && b.is_nan()) || a.to_bits() == b.to_bits()
+}
+fn fold_sum(p: &[Val]) -> f64 {
+    p.iter().filter_map(num).fold(0.0, |a, b| a + b)
+}
+fn sum_ok(vals: &[Val], got: f64) -> bool {
+    feq(fold_sum(vals), got) || perms(vals).iter().any(|p| feq(fold_sum(p), got))
+}
+fn avg_ok(vals: &[Val], got: Option<f64>) -> bool {
+    let n = vals.iter().filter_map(num).count();
+    match got {
+        None => n == 0,
+        Some(g) => n > 0 && (feq(fold_sum(vals) / n as f64, g) || perms(vals).iter().any(|p| feq(fold_sum(p) / n as f64, g))),
+    }
+}
+fn fold_minmax(p: &[Val], is_min: bool) -> Option<Val> {
+    let mut best: Option<Val> = None;
+    for v in p {
+        if *v == Val::Null {
+            continue;
+        }
+        best = match best {
+            None => Some(*v),
+            Some(cur) => {
+                let o = match (v, &cur) {
+                    (Val::I(a), Val::I(b)) => Some(a.cmp(b)),
+                    (Val::F(a), Val::F(b)) => f64::from_bits(*a).partial_cmp(&f64::from_bits(*b)),
+                    (Val::S(a), Val::S(b)) => Some(STRS[*a as usize].cmp(STRS[*b as usize])),
+                    _ => None,
+                };
+                let want = if is_min { std::cmp::Ordering::Less } else { std::cmp::Ordering::Greater };
+                if o == Some(want) { Some(*v) } else { Some(cur) }
+            }
+        };
+    }
+    best
+}
+/// `got`: None = no value, Some(None) = a value outside the alphabet
+fn minmax_ok(vals: &[Val], is_min: bool, got: &Option<Option<Val>>) -> bool {
+    let same = |a: Option<Val>| match (got, a) {
+        (None, None) => true,
+        (Some(Some(x)), Some(y)) => *x == y || matches!((x, y), (Val::F(p), Val::F(q)) if f64::from_bits(*p).is_nan() && f64::from_bits(q).is_nan()),
+        _ => false,
+    };
+    same(fold_minmax(vals, is_min)) || perms(vals).iter().any(|p| same(fold_minmax(p, is_min)))
+}
+fn nonnull(vals: &[Val]) -> u64 {
+    vals.iter().filter(|v| **v != Val::Null).count() as u64
+}
+/// two cells that every notion of DISTINCT / GROUP BY equality treats as equal
+fn same_cell(a: Val, b: Val) -> bool {
+    a == b || matches!((a, b), (Val::F(p), Val::F(q)) if f64::from_bits(p) == f64::from_bits(q))
+}
+
+/// Everything that post-processes the rows of a select: sum/avg/min/max, count_column on every
+/// column, select_with_projection, select_with_options, tx_select, select_distinct, select_grouped.
+fn agg_battery(out: &mut Out, ctx: &Ctx, eng: &Eng, cx: &Cx, rot: usize, both_groupings: bool) {
     let e = eng.e();
     let t = eng.t.as_str();
     let c = cx.cond();
-    let exp = matching(ctx.m, &c, ctx.selftest);
+    let exp = matching_rows(&ctx.rows, &c, ctx.selftest);
     let rows: Vec<&Vals> = exp.iter().map(|id| &ctx.m.rows[id]).collect();
-    fn num(v: &Val) -> Option<f64> {
-        match v {
-            Val::I(i) => Some(*i as f64),
-            Val::F(b) => Some(f64::from_bits(*b)),
-            _ => None,
-        }
-    }
-    fn feq(a: f64, b: f64) -> bool {
-        (a.is_nan() && b.is_nan()) || a.to_bits() == b.to_bits()
-    }
     let sel = e.select(t, c.clone()).map(|r| ids_of(&r)).unwrap_or_default();
-    let base = if sel != exp { classify(false, cx, ctx.m, &exp, &sel) } else { format!("c04:aggregate:differs-although-select-is-right:{}", index_path(cx, ctx.m).unwrap_or("scan")) };
+    let base = agg_sig("aggregate", cx, ctx.m, &exp, Some(&sel), None);
+    for col in 0..4 {
+        check_count_column(out, ctx, eng, cx, &exp, Some(&sel), col);
+    }
     for col in 0..3usize {
         let vals: Vec<Val> = rows.iter().map(|r| r[col]).collect();
         let shown: Vec<String> = vals.iter().map(|v| v.show()).collect();
         if col < 2 {
-            out.calls += 1;
+            out.hit(EP_SUM);
             match e.sum(t, COLS[col], c.clone()) {
                 Ok(got) => {
-                    let fold = |p: &[Val]| p.iter().filter_map(num).fold(0.0, |a, b| a + b);
-                    if !feq(fold(&vals), got) && !perms(&vals).iter().any(|p| feq(fold(p), got)) {
+                    if !sum_ok(&vals, got) {
                         out.viol(base.clone(), format!("sum({}, where {}) = {got}; the values of the rows satisfying the condition are {shown:?}", COLS[col], cx.show()), ctx.seq, qjson(cx, "sum", &exp, &[]));
                     }
                 }
                 Err(x) => out.viol("c04:sum:error".into(), format!("sum failed: {x}"), ctx.seq, qjson(cx, "sum", &exp, &[])),
             }
+            out.hit(EP_AVG);
+            match e.avg(t, COLS[col], c.clone()) {
+                Ok(got) => {
+                    if !avg_ok(&vals, got) {
+                        out.viol(base.clone(), format!("avg({}, where {}) = {got:?}; the values of the rows satisfying the condition are {shown:?}", COLS[col], cx.show()), ctx.seq, qjson(cx, "avg", &exp, &[]));
+                    }
+                }
+                Err(x) => out.viol("c04:avg:error".into(), format!("avg failed: {x}"), ctx.seq, qjson(cx, "avg", &exp, &[])),
+            }
         }
         for is_min in [true, false] {
-            out.calls += 1;
+            out.hit(if is_min { EP_MIN } else { EP_MAX });
             let r = if is_min { e.min(t, COLS[col], c.clone()) } else { e.max(t, COLS[col], c.clone()) };
             let name = if is_min { "min" } else { "max" };
             match r {
                 Ok(got) => {
-                    let fold = |p: &[Val]| -> Option<Val> {
-                        let mut best: Option<Val> = None;
-                        for v in p {
-                            if *v == Val::Null {
-                                continue;
-                            }
-                            best = match best {
-                                None => Some(*v),
-                                Some(cur) => {
-                                    let o = match (v, &cur) {
-                                        (Val::I(a), Val::I(b)) => Some(a.cmp(b)),
-                                        (Val::F(a), Val::F(b)) => f64::from_bits(*a).partial_cmp(&f64::from_bits(*b)),
-                                        (Val::S(a), Val::S(b)) => Some(STRS[*a as usize].cmp(STRS[*b as usize])),
-                                        _ => None,
-                                    };
-                                    let want = if is_min { std::cmp::Ordering::Less } else { std::cmp::Ordering::Greater };
-                                    if o == Some(want) { Some(*v) } else { Some(cur) }
-                                }
-                            };
-                        }
-                        best
-                    };
                     let g = got.as_ref().map(Val::from_value);
-                    let same = |a: Option<Val>| match (&g, a) {
-                        (None, None) => true,
-                        (Some(Some(x)), Some(y)) => *x == y || matches!((x, y), (Val::F(p), Val::F(q)) if f64::from_bits(*p).is_nan() && f64::from_bits(q).is_nan()),
-                        _ => false,
-                    };
-                    if !same(fold(&vals)) && !perms(&vals).iter().any(|p| same(fold(p))) {
+                    if !minmax_ok(&vals, is_min, &g) {
                         out.viol(base.clone(), format!("{name}({}, where {}) = {got:?}; the values of the rows satisfying the condition are {shown:?}", COLS[col], cx.show()), ctx.seq, qjson(cx, name, &exp, &[]));
                     }
                 }
@@ -935,13 +1174,142 @@ fn agg_battery(out: &mut Out, ctx: &Ctx, eng: &Eng, cx: &Cx) {
             }
         }
     }
+    // thin wrappers around select
+    let r = e.select_with_projection(t, c.clone(), Some(vec!["s".into(), "i".into()]));
+    if let Ok(rws) = &r {
+        if !content_ok(rws, ctx.m, Some(&["s", "i"])) {
+            out.viol("c04:select_with_projection:content".into(), format!("select_with_projection({}, [s,i]) returned wrong values", cx.show()), ctx.seq, qjson(cx, "select_with_projection", &exp, &[]));
+        }
+    }
+    check_ids(out, ctx, EP_SELECT_PROJ, "select_with_projection", false, cx, &exp, r.map(|x| ids_of(&x)).map_err(|x| x.to_string()), false);
+    let r = e.select_with_options(t, c.clone(), QueryOptions::new().with_timeout_ms(120_000));
+    check_ids(out, ctx, EP_SELECT_OPTS, "select_with_options", false, cx, &exp, r.map(|x| ids_of(&x)).map_err(|x| x.to_string()), false);
+    let tx = e.begin_transaction();
+    let r = e.tx_select(tx, t, c.clone());
+    let _ = e.commit(tx);
+    check_ids(out, ctx, EP_TX_SELECT, "tx_select", false, cx, &exp, r.map(|x| ids_of(&x)).map_err(|x| x.to_string()), false);
+    // select_distinct: a subset of the matching rows without repeated ids in which every matching
+    // row is represented by a row with the same key cells
+    let keysets: [Option<Vec<usize>>; 3] = [None, Some(vec![2]), Some(vec![3, 0])];
+    let keys = &keysets[rot % 3];
+    let kcols: Vec<usize> = keys.clone().unwrap_or_else(|| vec![0, 1, 2, 3]);
+    let knames: Option<Vec<String>> = keys.as_ref().map(|k| k.iter().map(|c| COLS[*c].to_string()).collect());
+    out.hit(EP_DISTINCT);
+    match e.select_distinct(t, c.clone(), knames.as_deref()) {
+        Ok(rws) => {
+            let got = ids_of(&rws);
+            let foreign = got.iter().any(|x| !exp.contains(x));
+            let dup = sorted(got.clone()).windows(2).any(|w| w[0] == w[1]);
+            let unrepresented = exp.iter().find(|id| !got.iter().any(|g| ctx.m.rows.get(g).is_some_and(|gr| kcols.iter().all(|k| same_cell(gr[*k], ctx.m.rows[id][*k])))));
+            if foreign || dup || unrepresented.is_some() {
+                let sig = if sel != exp { classify(false, cx, ctx.m, &exp, &sel) } else { format!("c04:select_distinct:{}", if foreign { "returns-nonmatching-row" } else if dup { "repeats-row" } else { "matching-row-not-represented" }) };
+                let mut rj = qjson(cx, "select_distinct", &exp, &got);
+                rj["distinct_columns"] = json!(knames);
+                out.viol(sig, format!("select_distinct({}, columns {knames:?}) returned ids {got:?}; the rows satisfying the condition are {exp:?}", cx.show()), ctx.seq, rj);
+            }
+        }
+        Err(x) => out.viol("c04:select_distinct:error".into(), format!("select_distinct failed: {x}"), ctx.seq, qjson(cx, "select_distinct", &exp, &[])),
+    }
+    // select_grouped without grouping columns: one group over exactly the matching rows
+    let aggs = vec![
+        AggregateExpr::CountAll,
+        AggregateExpr::Count("i".into()),
+        AggregateExpr::Count("f".into()),
+        AggregateExpr::Count("s".into()),
+        AggregateExpr::Count("b".into()),
+        AggregateExpr::Sum("i".into()),
+        AggregateExpr::Sum("f".into()),
+        AggregateExpr::Avg("i".into()),
+        AggregateExpr::Avg("f".into()),
+        AggregateExpr::Min("i".into()),
+        AggregateExpr::Max("f".into()),
+        AggregateExpr::Min("s".into()),
+    ];
+    let colv = |k: usize| -> Vec<Val> { rows.iter().map(|r| r[k]).collect() };
+    // quick: the two groupings alternate
+    let ungrouped = both_groupings || rot % 2 == 0;
+    if ungrouped {
+        out.hit(EP_GROUPED);
+    }
+    match if ungrouped { e.select_grouped(t, c.clone(), &[], &aggs, None) } else { Ok(vec![]) } {
+        Ok(_) if !ungrouped => {}
+        Ok(groups) => {
+            // no rows: no group, or one group of zero rows
+            let bad = if groups.is_empty() {
+                !exp.is_empty()
+            } else if groups.len() != 1 || groups[0].aggregates.len() != aggs.len() {
+                true
+            } else {
+                let a: Vec<&AggregateValue> = groups[0].aggregates.iter().map(|x| &x.1).collect();
+                let cnt = |v: &AggregateValue, want: u64| matches!(v, AggregateValue::Count(n) if *n == want);
+                let mm = |v: &AggregateValue, k: usize, is_min: bool| match v {
+                    AggregateValue::Min(g) | AggregateValue::Max(g) => minmax_ok(&colv(k), is_min, &g.as_ref().map(Val::from_value)),
+                    _ => false,
+                };
+                !(cnt(a[0], exp.len() as u64)
+                    && (1..5).all(|k| cnt(a[k], nonnull(&colv(k - 1))))
+                    && matches!(a[5], AggregateValue::Sum(x) if sum_ok(&colv(0), *x))
+                    && matches!(a[6], AggregateValue::Sum(x) if sum_ok(&colv(1), *x))
+                    && matches!(a[7], AggregateValue::Avg(x) if avg_ok(&colv(0), *x))
+                    && matches!(a[8], AggregateValue::Avg(x) if avg_ok(&colv(1), *x))
+                    && mm(a[9], 0, true)
+                    && mm(a[10], 1, false)
+                    && mm(a[11], 2, true))
+            };
+            if bad {
+                let sig = if sel != exp { classify(false, cx, ctx.m, &exp, &sel) } else { "c04:select_grouped:no-group-by:aggregates-not-over-the-matching-rows".to_string() };
+                out.viol(sig, format!("select_grouped({}, group_by [], 12 aggregates) = {groups:?}; the rows satisfying the condition are {exp:?}", cx.show()), ctx.seq, qjson(cx, "select_grouped", &exp, &[]));
+            }
+        }
+        Err(x) => out.viol("c04:select_grouped:error".into(), format!("select_grouped failed: {x}"), ctx.seq, qjson(cx, "select_grouped", &exp, &[])),
+    }
+    // grouped by b (true/false/NULL: equality of keys is unambiguous): per key COUNT(*), COUNT(i), COUNT(s)
+    let gaggs = vec![AggregateExpr::CountAll, AggregateExpr::Count("i".into()), AggregateExpr::Count("s".into())];
+    if both_groupings || !ungrouped {
+        out.hit(EP_GROUPED);
+    }
+    match if both_groupings || !ungrouped { e.select_grouped(t, c.clone(), &["b".to_string()], &gaggs, None) } else { Ok(vec![]) } {
+        Ok(_) if !(both_groupings || !ungrouped) => {}
+        Ok(groups) => {
+            let mut want: BTreeMap<Val, [u64; 3]> = BTreeMap::new();
+            for r in &rows {
+                let w = want.entry(r[3]).or_insert([0; 3]);
+                w[0] += 1;
+                w[1] += u64::from(r[0] != Val::Null);
+                w[2] += u64::from(r[2] != Val::Null);
+            }
+            let mut got: BTreeMap<Val, [u64; 3]> = BTreeMap::new();
+            let mut understood = true;
+            for g in &groups {
+                let key = g.group_key.first().and_then(|k| Val::from_value(&k.1));
+                let n: Vec<u64> = g.aggregates.iter().filter_map(|a| if let AggregateValue::Count(n) = a.1 { Some(n) } else { None }).collect();
+                match (key, n.len()) {
+                    (Some(k), 3) => {
+                        let w = got.entry(k).or_insert([0; 3]);
+                        for j in 0..3 {
+                            w[j] += n[j];
+                        }
+                    }
+                    _ => understood = false,
+                }
+            }
+            got.retain(|_, w| w[0] > 0);
+            if !understood {
+                out.text_unjudged += 1;
+            } else if got != want {
+                let sig = if sel != exp { classify(false, cx, ctx.m, &exp, &sel) } else { "c04:select_grouped:group-by-b:counts-not-over-the-matching-rows".to_string() };
+                out.viol(sig, format!("select_grouped({}, group_by [b], [COUNT(*),COUNT(i),COUNT(s)]) = {groups:?}; per value of b the rows satisfying the condition ({exp:?}) give {want:?}", cx.show()), ctx.seq, qjson(cx, "select_grouped", &exp, &[]));
+            }
+        }
+        Err(x) => out.viol("c04:select_grouped:error".into(), format!("select_grouped failed: {x}"), ctx.seq, qjson(cx, "select_grouped", &exp, &[])),
+    }
 }
 
-fn limit_battery(out: &mut Out, ctx: &Ctx, eng: &Eng, cx: &Cx) {
+fn limit_battery(out: &mut Out, ctx: &Ctx, eng: &Eng, cx: &Cx, all_batches: bool, rot: usize) {
     let e = eng.e();
     let t = eng.t.as_str();
     let c = cx.cond();
-    let exp = matching(ctx.m, &c, ctx.selftest);
+    let exp = matching_rows(&ctx.rows, &c, ctx.selftest);
     let hi = ctx.m.rows.len() + 1;
     let path = index_path(cx, ctx.m).unwrap_or("scan");
     // if plain select already loses/gains rows the cause is the lookup, reported there
@@ -954,7 +1322,7 @@ fn limit_battery(out: &mut Out, ctx: &Ctx, eng: &Eng, cx: &Cx) {
     let mut grid: BTreeMap<(usize, usize), Vec<u64>> = BTreeMap::new();
     for limit in 0..=hi {
         for offset in 0..=hi {
-            out.calls += 1;
+            out.hit(EP_LIMIT);
             let got = match e.select_with_limit(t, c.clone(), limit, offset) {
                 Ok(r) => ids_of(&r),
                 Err(x) => {
@@ -974,7 +1342,7 @@ fn limit_battery(out: &mut Out, ctx: &Ctx, eng: &Eng, cx: &Cx) {
                 out.viol(if path != "scan" && got.len() < want_len { trunc.clone() } else { format!("c04:limit:{path}:{}:page-{}", shape(cx), if got.len() < want_len { "short" } else { "long" }) }, format!("select_with_limit({}, limit {limit}, offset {offset}) returned {} rows {got:?}; {} rows satisfy the condition ({exp:?}) so the page must hold {want_len}", cx.show(), got.len(), exp.len()), ctx.seq, rj);
             }
             if limit == 1 || limit == offset + 1 {
-                out.calls += 1;
+                out.hit(EP_ITER);
                 let cur = e.select_iter(t, c.clone(), CursorOptions::new().with_limit(limit).with_offset(offset)).map(|cur| cur.filter_map(|x| x.ok()).map(|r| r.id).collect::<Vec<u64>>());
                 let bad = match &cur {
                     Ok(g) => g.len() != want_len || g.iter().any(|x| !exp.contains(x)) || sorted(g.clone()).windows(2).any(|w| w[0] == w[1]),
@@ -1005,7 +1373,7 @@ fn limit_battery(out: &mut Out, ctx: &Ctx, eng: &Eng, cx: &Cx) {
     }
     // the streaming cursor with every batch size
     for batch in 1..=hi {
-        out.calls += 1;
+        out.hit(EP_BUILDER);
         let r = e.select_streaming_builder(t, c.clone()).batch_size(batch).build().map(|x| x.map(|r| r.id).map_err(|e| e.to_string())).collect::<Result<Vec<u64>, String>>();
         match r {
             Ok(g) if sorted(g.clone()) == exp => {}
@@ -1017,8 +1385,37 @@ fn limit_battery(out: &mut Out, ctx: &Ctx, eng: &Eng, cx: &Cx) {
             Err(x) => out.viol("c04:streaming:error".into(), format!("select_streaming failed: {x}"), ctx.seq, qjson(cx, "select_streaming", &exp, &[])),
         }
     }
+    // max_rows: the cursor must stop after min(max, matching) rows, all of them matching, none twice
+    let mut combos: Vec<(bool, usize, usize)> = vec![];
+    for max in 0..=hi {
+        for batch in 1..=hi {
+            if all_batches || batch == 1 + (max + exp.len()) % hi {
+                combos.push((true, batch, max));
+            }
+        }
+        // the cursor's own setters
+        if all_batches || max == (rot + exp.len()) % (hi + 1) {
+            combos.push((false, 1 + max % hi, max));
+        }
+    }
+    for (via_builder, batch, max) in combos {
+        out.hit(if via_builder { EP_BUILDER } else { EP_STREAMING });
+        let cur = if via_builder { e.select_streaming_builder(t, c.clone()).batch_size(batch).max_rows(max).build() } else { e.select_streaming(t, c.clone()).with_batch_size(batch).with_max_rows(max) };
+        let r = cur.map(|x| x.map(|r| r.id).map_err(|e| e.to_string())).collect::<Result<Vec<u64>, String>>();
+        let want_len = max.min(exp.len());
+        match r {
+            Ok(g) if g.len() == want_len && g.iter().all(|x| exp.contains(x)) && !sorted(g.clone()).windows(2).any(|w| w[0] == w[1]) => {}
+            Ok(g) => {
+                let mut rj = qjson(cx, "select_streaming max_rows", &exp, &g);
+                rj["batch_size"] = json!(batch);
+                rj["max_rows"] = json!(max);
+                out.viol(format!("c04:streaming:max-rows:{path}:{}", shape(cx)), format!("select_streaming({}) with batch size {batch} and max_rows {max} yields ids {g:?}; the rows satisfying the condition are {exp:?} so it must yield {want_len} of them", cx.show()), ctx.seq, rj);
+            }
+            Err(x) => out.viol("c04:streaming:error".into(), format!("select_streaming failed: {x}"), ctx.seq, qjson(cx, "select_streaming", &exp, &[])),
+        }
+    }
     for offset in 1..=hi {
-        out.calls += 1;
+        out.hit(EP_ITER);
         let cur = e.select_iter(t, c.clone(), CursorOptions::new().with_offset(offset)).map(|cur| cur.filter_map(|x| x.ok()).map(|r| r.id).collect::<Vec<u64>>()).map_err(|x| x.to_string());
         let want = exp.len().saturating_sub(offset);
         let bad = match &cur {
@@ -1036,7 +1433,7 @@ fn text_battery(out: &mut Out, ctx: &Ctx, eng: &Eng, cx: &Cx) {
     let router = &eng.pool.router;
     let e = eng.e();
     let t = eng.t.as_str();
-    let exp = matching(ctx.m, &cx.cond(), ctx.selftest);
+    let exp = matching_rows(&ctx.rows, &cx.cond(), ctx.selftest);
     // (entry point, where-text, is the reading fixed only by AND>OR precedence?)
     let mut runs: Vec<(&str, String, bool)> = vec![];
     if let Some(w) = cx.legacy_text() {
@@ -1054,13 +1451,14 @@ fn text_battery(out: &mut Out, ctx: &Ctx, eng: &Eng, cx: &Cx) {
         }
     }
     for (entry, w, by_precedence) in runs {
-        out.calls += 1;
+        out.hit(if entry == "execute" { EP_TEXT_LEGACY } else { EP_TEXT_AST });
         let sql = format!("SELECT * FROM {t} WHERE {w}");
         let r = if entry == "execute" { router.execute(&sql) } else { router.execute_parsed(&sql) };
         let shown = format!("SELECT * FROM t WHERE {w}");
         match r {
             Ok(QueryResult::Rows(rows)) => {
                 out.text_ok += 1;
+                out.judged[if entry == "execute" { EP_TEXT_LEGACY } else { EP_TEXT_AST }] += 1;
                 let got = sorted(ids_of(&rows));
                 if got == exp {
                     continue;
@@ -1084,36 +1482,245 @@ fn text_battery(out: &mut Out, ctx: &Ctx, eng: &Eng, cx: &Cx) {
     }
 }
 
-/// update / delete_rows with `cx` on a rebuilt copy of the state
-fn write_battery(out: &mut Out, ctx: &Ctx, cx: &Cx) {
+#[derive(Clone, Copy, PartialEq, Debug)]
+enum AggK {
+    CountAll,
+    Count,
+    Sum,
+    Avg,
+    Min,
+    Max,
+}
+/// The aggregate spellings of the AST grammar with the same condition as WHERE text through
+/// `QueryRouter::execute_parsed` (the legacy `execute` grammar ignores the select list and has no
+/// aggregates). variant 0: COUNT(*) and COUNT(col) for every column; 1: SUM/AVG (+ lower-case and
+/// aliased COUNT); 2: MIN/MAX (+ table-qualified COUNT); 3: GROUP BY b with COUNTs.
+fn text_agg_battery(out: &mut Out, ctx: &Ctx, eng: &Eng, cx: &Cx, variant: usize) {
+    let Some(w) = cx.paren_text() else { return };
+    let router = &eng.pool.router;
+    let e = eng.e();
+    let t = eng.t.as_str();
     let c = cx.cond();
-    let exp = matching(ctx.m, &c, ctx.selftest);
-    {
-        let (eng, _) = build(ctx.seq);
-        out.calls += 1;
-        let r = eng.e().update(&eng.t, c.clone(), HashMap::from([("f".to_string(), Value::Float(1.5)), ("b".to_string(), Value::Null)]));
-        let mut want = ctx.m.rows.clone();
-        for id in &exp {
-            let v = want.get_mut(id).unwrap();
-            v[1] = fl(1.5);
-            v[3] = Val::Null;
+    let exp = matching_rows(&ctx.rows, &c, ctx.selftest);
+    let rows: Vec<&Vals> = exp.iter().map(|id| &ctx.m.rows[id]).collect();
+    let colv = |k: usize| -> Vec<Val> { rows.iter().map(|r| r[k]).collect() };
+    out.hit(EP_TEXT_AGG + variant);
+    if variant == 3 {
+        let sql = format!("SELECT b, COUNT(*), COUNT(i), COUNT(s) FROM {t} WHERE {w} GROUP BY b");
+        let shown = format!("SELECT b, COUNT(*), COUNT(i), COUNT(s) FROM t WHERE {w} GROUP BY b");
+        match router.execute_parsed(&sql) {
+            Ok(QueryResult::Rows(rs)) => {
+                let mut want: BTreeMap<Val, [i64; 3]> = BTreeMap::new();
+                for r in &rows {
+                    let x = want.entry(r[3]).or_insert([0; 3]);
+                    x[0] += 1;
+                    x[1] += i64::from(r[0] != Val::Null);
+                    x[2] += i64::from(r[2] != Val::Null);
+                }
+                let mut got: BTreeMap<Val, [i64; 3]> = BTreeMap::new();
+                for r in &rs {
+                    let key = r.values.first().and_then(|v| Val::from_value(&v.1));
+                    let n: Vec<i64> = r.values.iter().skip(1).filter_map(|v| if let Value::Int(n) = v.1 { Some(n) } else { None }).collect();
+                    match (key, n.len(), r.values.len()) {
+                        (Some(k @ (Val::B(_) | Val::Null)), 3, 4) => {
+                            let x = got.entry(k).or_insert([0; 3]);
+                            for j in 0..3 {
+                                x[j] += n[j];
+                            }
+                        }
+                        _ => {
+                            out.text_unjudged += 1;
+                            return;
+                        }
+                    }
+                }
+                got.retain(|_, x| x[0] > 0);
+                out.text_ok += 1;
+                out.judged[EP_TEXT_AGG + 3] += 1;
+                if got != want {
+                    let direct = e.select_columnar(t, c.clone(), ColumnarScanOptions { projection: None, prefer_columnar: true }).map(|r| sorted(ids_of(&r))).unwrap_or_default();
+                    let sig = if direct != exp { classify(true, cx, ctx.m, &exp, &direct) } else { "c04:text:execute_parsed:group-by:counts-not-over-the-matching-rows".to_string() };
+                    let mut rj = qjson(cx, "execute_parsed", &exp, &[]);
+                    rj["sql"] = json!(shown);
+                    out.viol(sig, format!("QueryRouter::execute_parsed({shown:?}) returned {rs:?}; per value of b the rows satisfying the condition ({exp:?}) give [COUNT(*),COUNT(i),COUNT(s)] = {want:?}"), ctx.seq, rj);
+                }
+            }
+            Ok(_) => out.text_unjudged += 1,
+            Err(_) => out.text_err += 1,
         }
-        let after = eng.raw_rows();
-        if r.as_ref().ok() != Some(&exp.len()) || after.as_ref().ok() != Some(&want) {
-            out.viol(format!("c04:update:{}:wrong-rows", shape(cx)), format!("update(where {}) returned {r:?} and left {after:?}; the rows satisfying the condition are {exp:?}", cx.show()), ctx.seq, qjson(cx, "update", &exp, &[]));
-        }
+        return;
     }
-    {
+    let specs: Vec<(String, AggK, usize)> = match variant {
+        0 => vec![("COUNT(*)".into(), AggK::CountAll, 0), ("COUNT(i)".into(), AggK::Count, 0), ("COUNT(f)".into(), AggK::Count, 1), ("COUNT(s)".into(), AggK::Count, 2), ("COUNT(b)".into(), AggK::Count, 3)],
+        1 => vec![("SUM(i)".into(), AggK::Sum, 0), ("SUM(f)".into(), AggK::Sum, 1), ("AVG(i)".into(), AggK::Avg, 0), ("AVG(f)".into(), AggK::Avg, 1), ("count(f) AS n".into(), AggK::Count, 1), ("count(*)".into(), AggK::CountAll, 0)],
+        _ => vec![("MIN(i)".into(), AggK::Min, 0), ("MAX(i)".into(), AggK::Max, 0), ("MIN(f)".into(), AggK::Min, 1), ("MAX(f)".into(), AggK::Max, 1), ("MIN(s)".into(), AggK::Min, 2), ("MAX(s)".into(), AggK::Max, 2), (format!("COUNT({t}.s)"), AggK::Count, 2), ("COUNT(b)".into(), AggK::Count, 3)],
+    };
+    let list = specs.iter().map(|x| x.0.clone()).collect::<Vec<_>>().join(", ");
+    let sql = format!("SELECT {list} FROM {t} WHERE {w}");
+    let shown = format!("SELECT {} FROM t WHERE {w}", list.replace(&format!("{t}."), "t."));
+    match router.execute_parsed(&sql) {
+        Ok(QueryResult::Rows(rs)) if rs.len() == 1 && rs[0].values.len() == specs.len() => {
+            out.text_ok += 1;
+            out.judged[EP_TEXT_AGG + variant] += 1;
+            for ((spell, kind, col), (_, v)) in specs.iter().zip(&rs[0].values) {
+                let vals = colv(*col);
+                let opt = |v: &Value| if matches!(v, Value::Null) { None } else { Some(Val::from_value(v)) };
+                let (ok, over) = match kind {
+                    AggK::CountAll => (matches!(v, Value::Int(n) if *n as usize == exp.len()), None),
+                    AggK::Count => (matches!(v, Value::Int(n) if *n as u64 == nonnull(&vals)), if let Value::Int(n) = v { Some(*n as u64 > nonnull(&vals)) } else { None }),
+                    AggK::Sum => (matches!(v, Value::Float(x) if sum_ok(&vals, *x)), None),
+                    AggK::Avg => (
+                        match v {
+                            Value::Null => avg_ok(&vals, None),
+                            Value::Float(x) => avg_ok(&vals, Some(*x)),
+                            _ => false,
+                        },
+                        None,
+                    ),
+                    AggK::Min => (minmax_ok(&vals, true, &opt(v)), None),
+                    AggK::Max => (minmax_ok(&vals, false, &opt(v)), None),
+                };
+                if ok {
+                    continue;
+                }
+                // what the engine call behind this spelling returns for the intended tree, as the router renders it
+                let cn = COLS[*col];
+                let direct: Option<Value> = match kind {
+                    AggK::CountAll => e.count(t, c.clone()).ok().map(|n| Value::Int(n as i64)),
+                    AggK::Count => e.count_column(t, cn, c.clone()).ok().map(|n| Value::Int(n as i64)),
+                    AggK::Sum => e.sum(t, cn, c.clone()).ok().map(Value::Float),
+                    AggK::Avg => e.avg(t, cn, c.clone()).ok().map(|x| x.map_or(Value::Null, Value::Float)),
+                    AggK::Min => e.min(t, cn, c.clone()).ok().map(|x| x.unwrap_or(Value::Null)),
+                    AggK::Max => e.max(t, cn, c.clone()).ok().map(|x| x.unwrap_or(Value::Null)),
+                };
+                let sig = if direct.as_ref().map(|d| format!("{d:?}")) == Some(format!("{v:?}")) {
+                    let sel = e.select(t, c.clone()).map(|r| ids_of(&r)).ok();
+                    match kind {
+                        AggK::CountAll => match &sel {
+                            Some(s) if *s != exp => classify(false, cx, ctx.m, &exp, s),
+                            _ => format!("c04:count:differs-from-select:{}", index_path(cx, ctx.m).unwrap_or("scan")),
+                        },
+                        AggK::Count => agg_sig("count_column", cx, ctx.m, &exp, sel.as_deref(), over),
+                        _ => agg_sig("aggregate", cx, ctx.m, &exp, sel.as_deref(), None),
+                    }
+                } else {
+                    format!("c04:text:execute_parsed:aggregate-differs-from-engine-call:{kind:?}")
+                };
+                let mut rj = qjson(cx, "execute_parsed", &exp, &[]);
+                rj["sql"] = json!(shown);
+                rj["aggregate"] = json!(spell);
+                out.viol(sig, format!("QueryRouter::execute_parsed({shown:?}): {spell} = {v:?}; the rows satisfying the condition are {exp:?} with {} values {:?}", COLS[*col], vals.iter().map(|x| x.show()).collect::<Vec<_>>()), ctx.seq, rj);
+            }
+        }
+        Ok(_) => out.text_unjudged += 1,
+        Err(_) => out.text_err += 1,
+    }
+}
+
+/// The ways a conditional write can be issued: 0 update/delete_rows, 1 the *_with_options
+/// variants, 2 tx_update/tx_delete in an explicit transaction that is committed, 3 UPDATE/DELETE
+/// text through execute_parsed, 4 through the legacy execute grammar.
+const WRITE_VARIANTS: usize = 5;
+/// one conditional update and one conditional delete with `cx`, each on a rebuilt copy of the state
+fn write_battery(out: &mut Out, ctx: &Ctx, cx: &Cx, variant: usize) {
+    let c = cx.cond();
+    let exp = matching_rows(&ctx.rows, &c, ctx.selftest);
+    // text variants need a text; fall back to the plain call otherwise
+    let text = match variant {
+        3 => cx.paren_text(),
+        4 => cx.legacy_text(),
+        _ => None,
+    };
+    let variant = if variant >= 3 && text.is_none() { 0 } else { variant };
+    let opts = QueryOptions::new().with_timeout_ms(120_000);
+    for is_update in [true, false] {
         let (eng, _) = build(ctx.seq);
-        out.calls += 1;
-        let r = eng.e().delete_rows(&eng.t, c.clone());
+        let e = eng.e();
+        let t = eng.t.as_str();
+        let sets = || HashMap::from([("f".to_string(), Value::Float(1.5)), ("b".to_string(), Value::Null)]);
+        let (name, ep): (&str, usize) = match (variant, is_update) {
+            (0, true) => ("update", EP_UPDATE),
+            (0, false) => ("delete_rows", EP_DELETE),
+            (1, true) => ("update_with_options", EP_UPDATE_OPTS),
+            (1, false) => ("delete_rows_with_options", EP_DELETE_OPTS),
+            (2, true) => ("tx_update+commit", EP_TX_UPDATE),
+            (2, false) => ("tx_delete+commit", EP_TX_DELETE),
+            (3, true) => ("execute_parsed UPDATE", EP_TEXT_UPDATE_AST),
+            (3, false) => ("execute_parsed DELETE", EP_TEXT_DELETE_AST),
+            (_, true) => ("execute UPDATE", EP_TEXT_UPDATE_LEGACY),
+            (_, false) => ("execute DELETE", EP_TEXT_DELETE_LEGACY),
+        };
+        out.hit(ep);
+        let mut sql_shown: Option<String> = None;
+        let r: Result<usize, String> = match variant {
+            0 => if is_update { e.update(t, c.clone(), sets()) } else { e.delete_rows(t, c.clone()) }.map_err(|x| x.to_string()),
+            1 => if is_update { e.update_with_options(t, c.clone(), sets(), opts) } else { e.delete_rows_with_options(t, c.clone(), opts) }.map_err(|x| x.to_string()),
+            2 => {
+                let tx = e.begin_transaction();
+                let r = if is_update { e.tx_update(tx, t, c.clone(), sets()) } else { e.tx_delete(tx, t, c.clone()) };
+                match r {
+                    Ok(n) => e.commit(tx).map(|_| n).map_err(|x| x.to_string()),
+                    Err(x) => {
+                        let _ = e.rollback(tx);
+                        Err(x.to_string())
+                    }
+                }
+            }
+            _ => {
+                let w = text.clone().unwrap_or_default();
+                let (sql, shown) = match (variant, is_update) {
+                    (3, true) => (format!("UPDATE {t} SET f = 1.5, b = NULL WHERE {w}"), format!("UPDATE t SET f = 1.5, b = NULL WHERE {w}")),
+                    (3, false) => (format!("DELETE FROM {t} WHERE {w}"), format!("DELETE FROM t WHERE {w}")),
+                    (_, true) => (format!("UPDATE {t} SET f=1.5, b=NULL WHERE {w}"), format!("UPDATE t SET f=1.5, b=NULL WHERE {w}")),
+                    (_, false) => (format!("DELETE {t} WHERE {w}"), format!("DELETE t WHERE {w}")),
+                };
+                sql_shown = Some(shown);
+                let res = if variant == 3 { eng.pool.router.execute_parsed(&sql) } else { eng.pool.router.execute(&sql) };
+                match res {
+                    Ok(QueryResult::Count(n)) => {
+                        out.text_ok += 1;
+                        out.judged[ep] += 1;
+                        Ok(n)
+                    }
+                    Ok(_) => {
+                        out.text_unjudged += 1;
+                        continue;
+                    }
+                    Err(_) => {
+                        // a text the router rejects is counted, not judged
+                        out.text_err += 1;
+                        continue;
+                    }
+                }
+            }
+        };
         let mut want = ctx.m.rows.clone();
         for id in &exp {
-            want.remove(id);
+            if is_update {
+                let v = want.get_mut(id).unwrap();
+                v[1] = fl(1.5);
+                v[3] = Val::Null;
+            } else {
+                want.remove(id);
+            }
         }
         let after = eng.raw_rows();
         if r.as_ref().ok() != Some(&exp.len()) || after.as_ref().ok() != Some(&want) {
-            out.viol(format!("c04:delete:{}:wrong-rows", shape(cx)), format!("delete_rows(where {}) returned {r:?} and left {after:?}; the rows satisfying the condition are {exp:?}", cx.show()), ctx.seq, qjson(cx, "delete_rows", &exp, &[]));
+            let kind = if is_update { "update" } else { "delete" };
+            let mut sig = format!("c04:{kind}:{}:wrong-rows", shape(cx));
+            if variant >= 3 {
+                // does the plain engine call with the intended tree touch the right rows?
+                let (eng2, _) = build(ctx.seq);
+                let r2 = if is_update { eng2.e().update(&eng2.t, c.clone(), sets()) } else { eng2.e().delete_rows(&eng2.t, c.clone()) };
+                if r2.ok() == Some(exp.len()) && eng2.raw_rows().ok().as_ref() == Some(&want) {
+                    sig = format!("c04:text:{}:{kind}:condition-mistranslated:{}", if variant == 3 { "execute_parsed" } else { "execute" }, shape(cx));
+                }
+            }
+            let mut rj = qjson(cx, name, &exp, &[]);
+            if let Some(sh) = &sql_shown {
+                rj["sql"] = json!(sh);
+            }
+            out.viol(sig, format!("{name}({}) returned {r:?} and left {after:?}; the rows satisfying the condition are {exp:?}", sql_shown.clone().unwrap_or_else(|| format!("where {}", cx.show()))), ctx.seq, rj);
         }
     }
 }
@@ -1127,6 +1734,16 @@ struct Plan {
     text_pairs_step: usize,
     level: u8,
     text_atoms_step: usize,
+    /// count_column on all four columns for every condition (otherwise one rotating column; the
+    /// aggregate battery always counts all four)
+    cc_all: bool,
+    /// streaming cursor with max_rows: every batch size (otherwise one rotating batch size per max)
+    all_batches: bool,
+    /// of the conditions sent as `SELECT *` text, every n-th is also sent with an aggregate select list
+    text_agg_atoms_step: usize,
+    text_agg_pairs_step: usize,
+    /// every conditional write through all WRITE_VARIANTS (otherwise one rotating variant)
+    write_all_variants: bool,
 }
 fn plan(thorough: bool) -> Plan {
     let core = core_atoms();
@@ -1188,7 +1805,7 @@ fn plan(thorough: bool) -> Plan {
         write_set.push(and(&sc[0], &sc[2]));
         write_set.push(or(&sc[1], &sc[5]));
     }
-    Plan { full: full_atoms(), pairs, triples, limit_set, write_set, text_pairs_step: if thorough { 2 } else { 5 }, level: if thorough { 2 } else { 1 }, text_atoms_step: if thorough { 1 } else { 2 } }
+    Plan { full: full_atoms(), pairs, triples, limit_set, write_set, text_pairs_step: if thorough { 2 } else { 5 }, level: if thorough { 2 } else { 1 }, text_atoms_step: if thorough { 1 } else { 2 }, cc_all: thorough, all_batches: thorough, text_agg_atoms_step: if thorough { 2 } else { 6 }, text_agg_pairs_step: if thorough { 1 } else { 3 }, write_all_variants: thorough }
 }
 
 fn battery(seq: &[Op], pl: &Plan, selftest: bool) -> Out {
@@ -1202,38 +1819,52 @@ fn battery(seq: &[Op], pl: &Plan, selftest: bool) -> Out {
         }
     };
     let (eng, m) = build(seq);
-    let ctx = Ctx { seq, m: &m, selftest };
+    let ctx = Ctx::new(seq, &m, selftest);
     lap("build", out.calls);
-    read_battery(&mut out, &ctx, &eng, &Cx::True, 2);
+    // running number of the condition: rotates the counted column / the aggregate spelling / the
+    // write variant together with the depth of the state
+    let mut k = seq.len();
+    read_battery(&mut out, &ctx, &eng, &Cx::True, 2, k, true);
     let core = core_atoms();
     for cx in &pl.full {
+        k += 1;
         // the thin wrappers (projection, prefer_columnar=false, select_iter) only on the core atoms
-        read_battery(&mut out, &ctx, &eng, cx, if pl.level == 2 && !core.contains(cx) { 1 } else { pl.level });
+        read_battery(&mut out, &ctx, &eng, cx, if pl.level == 2 && !core.contains(cx) { 1 } else { pl.level }, k, pl.cc_all);
     }
     lap("atoms read", out.calls);
     // quick: every second atom, shifted by the state's depth so that both halves occur
-    for cx in pl.full.iter().skip(seq.len() % pl.text_atoms_step).step_by(pl.text_atoms_step) {
+    for (j, cx) in pl.full.iter().skip(seq.len() % pl.text_atoms_step).step_by(pl.text_atoms_step).enumerate() {
         text_battery(&mut out, &ctx, &eng, cx);
+        if (j + seq.len()) % pl.text_agg_atoms_step == 0 {
+            text_agg_battery(&mut out, &ctx, &eng, cx, (j / pl.text_agg_atoms_step + seq.len()) % 4);
+        }
     }
     lap("atoms text", out.calls);
     for cx in &pl.limit_set {
-        limit_battery(&mut out, &ctx, &eng, cx);
-        agg_battery(&mut out, &ctx, &eng, cx);
+        k += 1;
+        limit_battery(&mut out, &ctx, &eng, cx, pl.all_batches, k);
+        agg_battery(&mut out, &ctx, &eng, cx, k, pl.all_batches);
     }
     lap("limit+agg", out.calls);
     for cx in &pl.pairs {
-        read_battery(&mut out, &ctx, &eng, cx, 0);
+        k += 1;
+        read_battery(&mut out, &ctx, &eng, cx, 0, k, pl.cc_all);
     }
     lap("pairs read", out.calls);
-    for cx in pl.pairs.iter().step_by(pl.text_pairs_step) {
+    for (j, cx) in pl.pairs.iter().step_by(pl.text_pairs_step).enumerate() {
         text_battery(&mut out, &ctx, &eng, cx);
+        if (j + seq.len()) % pl.text_agg_pairs_step == 0 {
+            text_agg_battery(&mut out, &ctx, &eng, cx, (j / pl.text_agg_pairs_step + seq.len()) % 4);
+        }
     }
     lap("pairs text", out.calls);
-    for (k, cx) in pl.triples.iter().enumerate() {
-        read_battery(&mut out, &ctx, &eng, cx, 0);
+    for (j, cx) in pl.triples.iter().enumerate() {
+        k += 1;
+        read_battery(&mut out, &ctx, &eng, cx, 0, k, pl.cc_all);
         // every second triple of each of the four nestings, alternating with the depth
-        if (k / 4 + k % 4 + seq.len()) % 2 == 0 {
+        if (j / 4 + j % 4 + seq.len()) % 2 == 0 {
             text_battery(&mut out, &ctx, &eng, cx);
+            text_agg_battery(&mut out, &ctx, &eng, cx, (j / 2 + seq.len()) % 4);
         }
     }
     lap("triples", out.calls);
@@ -1241,21 +1872,29 @@ fn battery(seq: &[Op], pl: &Plan, selftest: bool) -> Out {
     let e = eng.e();
     let _ = e.materialize_columns(&eng.t, &["i", "f", "s", "b"]);
     for cx in core_atoms() {
-        read_battery(&mut out, &ctx, &eng, &cx, 0);
+        k += 1;
+        read_battery(&mut out, &ctx, &eng, &cx, 0, k, pl.cc_all);
     }
     for c in 0..4 {
         let _ = e.drop_columnar_data(&eng.t, COLS[c]);
     }
     for cx in core_atoms() {
-        read_battery(&mut out, &ctx, &eng, &cx, 0);
+        k += 1;
+        read_battery(&mut out, &ctx, &eng, &cx, 0, k, pl.cc_all);
     }
     // neither that nor any read may have changed the rows
     if eng.raw_rows().ok().as_ref() != Some(&m.rows) {
         out.viol("c04:read-or-materialize-changes-rows".into(), "a read query or materialize_columns/drop_columnar_data changed the stored rows".into(), seq, json!({}));
     }
     lap("materialize", out.calls);
-    for cx in &pl.write_set {
-        write_battery(&mut out, &ctx, cx);
+    for (j, cx) in pl.write_set.iter().enumerate() {
+        if pl.write_all_variants {
+            for v in 0..WRITE_VARIANTS {
+                write_battery(&mut out, &ctx, cx, v);
+            }
+        } else {
+            write_battery(&mut out, &ctx, cx, (j + seq.len()) % WRITE_VARIANTS);
+        }
     }
     lap("write", out.calls);
     out
@@ -1270,17 +1909,29 @@ fn light_battery(seq: &[Op], pl: &Plan, selftest: bool) -> Out {
         out.viol("c04:mutation:insert:diverges-from-reference".into(), "rows after replay differ from the reference".into(), seq, json!({}));
         return out;
     }
-    let ctx = Ctx { seq, m: &m, selftest };
-    read_battery(&mut out, &ctx, &eng, &Cx::True, 1);
-    for cx in &pl.full {
-        read_battery(&mut out, &ctx, &eng, cx, 0);
+    let ctx = Ctx::new(seq, &m, selftest);
+    if seq.iter().any(|o| matches!(o, Op::Batch(_))) {
+        out.ep[EP_BATCH_INSERT] += 1;
     }
-    limit_battery(&mut out, &ctx, &eng, &Cx::True);
+    // rotation of the counted column: by condition and by the first two inserted templates
+    let mut k = seq.iter().take(2).map(|o| if let Op::Ins(t) = o { *t as usize } else { 0 }).sum::<usize>();
+    read_battery(&mut out, &ctx, &eng, &Cx::True, 1, k, true);
+    for cx in &pl.full {
+        k += 1;
+        read_battery(&mut out, &ctx, &eng, cx, 0, k, false);
+    }
+    limit_battery(&mut out, &ctx, &eng, &Cx::True, false, k);
     for cx in core_atoms() {
-        limit_battery(&mut out, &ctx, &eng, &cx);
+        k += 1;
+        limit_battery(&mut out, &ctx, &eng, &cx, false, k);
+        let exp = matching_rows(&ctx.rows, &cx.cond(), selftest);
+        for col in 0..4 {
+            check_count_column(&mut out, &ctx, &eng, &cx, &exp, None, col);
+        }
     }
     for cx in pl.pairs.iter().step_by(2) {
-        read_battery(&mut out, &ctx, &eng, cx, 0);
+        k += 1;
+        read_battery(&mut out, &ctx, &eng, cx, 0, k, false);
     }
     out
 }
@@ -1290,7 +1941,16 @@ fn part_b(templ: &[u8], pl: &Plan, selftest: bool) -> (Out, u64) {
         seqs = seqs.iter().flat_map(|s| templ.iter().map(move |t| { let mut x = s.clone(); x.push(Op::Ins(*t)); x })).collect();
     }
     let indexed: Vec<Vec<Op>> = seqs.iter().map(|s| { let mut x = s.clone(); x.extend([Op::Hash(0), Op::Btree(0), Op::Hash(1), Op::Btree(1)]); x }).collect();
+    // the same indexes created first and the five rows inserted by one batch_insert
+    let batched: Vec<Vec<Op>> = seqs
+        .iter()
+        .map(|s| {
+            let ks: Vec<u8> = s.iter().map(|o| if let Op::Ins(k) = o { *k } else { 0 }).collect();
+            vec![Op::Hash(0), Op::Btree(0), Op::Hash(1), Op::Btree(1), Op::Batch([ks[0], ks[1], ks[2], ks[3], ks[4]])]
+        })
+        .collect();
     seqs.extend(indexed);
+    seqs.extend(batched);
     let outs: Vec<Out> = seqs.par_iter().map(|s| light_battery(s, pl, selftest)).collect();
     let mut total = Out::default();
     for o in outs {
@@ -1331,7 +1991,7 @@ fn expand(node: &Node, alpha: &[Op], max_rows: usize) -> Vec<Child> {
         let flags_ok = (0..5).all(|c| e.has_index(&eng.t, COLS[c]) == m.hash[c] && e.has_btree_index(&eng.t, COLS[c]) == m.btree[c]);
         let viol = if got_n.as_ref().ok() != Some(&want_n) || raw.as_ref().ok() != Some(&m.rows) || !flags_ok {
             let kind = match op {
-                Op::Ins(_) => "insert",
+                Op::Ins(_) | Op::Batch(_) => "insert",
                 Op::Upd(..) => "update",
                 Op::Del(_) => "delete",
                 Op::Hash(_) => "hash-index-ddl",
@@ -1432,11 +2092,30 @@ fn main() {
     let max_rows: usize = rep.args.flag("maxrows").and_then(|s| s.parse().ok()).unwrap_or(5);
     rep.rule("BFS over all mutation sequences (8 insert templates covering Int{0,1,-1,MAX,MIN} Float{0.0,-0.0,1.5,NaN,+inf,-inf} String{'a','','b','é'} Bool, explicit NULL and omitted column; update where {_id=1,TRUE} set one of 8 assignments; delete_rows where {_id=1,_id=2,_id>1}; create/drop hash index and ordered index on i,f,s,b,_id) up to the depth, every sequence replayed on a fresh table of the real engine; a state is distinct by (rows, next row id, index flags, raw vectorised columns with alive/null masks, all stored index entries)");
     let pl = plan(thorough);
-    rep.rule("part B: every sequence of exactly five inserts over a subset of the templates (quick 3, thorough 6), without indexes and with hash+ordered indexes on i and f; battery: all atoms + TRUE through select/count/select_columnar, the limit/offset/streaming sweep for TRUE and the core atoms, half of the pairs");
-    rep.rule(&format!("on every distinct state: 6 operators x {{i,f,s,b,_id}} x every alphabet value (cross-type included) + TRUE = {} conditions through select, count, select_columnar (vectorised{}), select_streaming{} and as WHERE text through QueryRouter::execute (legacy grammar) and ::execute_parsed (AST grammar){}; {} AND/OR pairs of the 25 core atoms and {} AND-of-OR / OR-of-AND triples through select, count, select_columnar and (pairs: every 2nd quick 5th; triples: every 2nd) as text; for {} conditions (TRUE, core atoms, AND pairs) select_with_limit and select_iter for every limit,offset <= n+1, page walks for every page size, select_streaming for every batch size <= n+1, sum/min/max; for {} conditions update and delete_rows on a rebuilt copy; materialize_columns/drop_columnar_data followed by the core atoms again. non-trivial = the condition selects a proper non-empty subset of the rows", pl.full.len() + 1, if thorough { "; on TRUE and the core atoms also with projection, with prefer_columnar=false" } else { "" }, if thorough { " and select_iter" } else { "" }, if thorough { "" } else { " (text: every second atom, alternating with depth)" }, pl.pairs.len(), pl.triples.len(), pl.limit_set.len(), pl.write_set.len()));
+    rep.rule("part B: every sequence of exactly five inserts over a subset of the templates (quick 3, thorough 6), (a) without indexes, (b) with hash+ordered indexes on i and f created afterwards, (c) with those indexes created first and the five rows inserted by one batch_insert; battery: all atoms + TRUE through select/count/count_column(one rotating column)/select_columnar, the limit/offset/streaming/max_rows sweep and count_column on all four columns for TRUE and the core atoms, half of the pairs");
+    rep.rule(&format!(
+        "on every distinct state: 6 operators x {{i,f,s,b,_id}} x every alphabet value (cross-type included) + TRUE = {} conditions through select, count, count_column ({}), select_columnar (vectorised{}), select_streaming{} and as WHERE text through QueryRouter::execute (legacy grammar) and ::execute_parsed (AST grammar){}; {} AND/OR pairs of the 25 core atoms and {} AND-of-OR / OR-of-AND triples through select, count, count_column, select_columnar and (pairs: every {}; triples: every 2nd) as text; of the conditions sent as `SELECT *` text every {} atom / every {} pair / every triple is also sent through execute_parsed with an aggregate select list, the four spellings rotating with the condition and the depth: [COUNT(*),COUNT(i),COUNT(f),COUNT(s),COUNT(b)] | [SUM(i),SUM(f),AVG(i),AVG(f),count(f) AS n,count(*)] | [MIN/MAX(i,f,s),COUNT(t.s),COUNT(b)] | [b,COUNT(*),COUNT(i),COUNT(s) GROUP BY b]; for {} conditions (TRUE, core atoms, AND pairs) select_with_limit and select_iter for every limit,offset <= n+1, page walks for every page size, select_streaming(_builder) for every batch size <= n+1 and with max_rows 0..n+1 ({}), count_column on all four columns, sum/avg/min/max, select_with_projection, select_with_options, tx_select, select_distinct (all columns | [s] | [b,i], rotating), select_grouped (no grouping column with 12 aggregates | grouped by b with counts{}); for {} conditions a conditional update and a conditional delete, each on a rebuilt copy, issued {} of: update/delete_rows, update_with_options/delete_rows_with_options, tx_update/tx_delete + commit, UPDATE/DELETE text through execute_parsed, through execute; materialize_columns/drop_columnar_data followed by the core atoms again. non-trivial = the condition selects a proper non-empty subset of the rows",
+        pl.full.len() + 1,
+        if pl.cc_all { "all four columns" } else { "one column, rotating with the condition and the depth of the state" },
+        if thorough { "; on TRUE and the core atoms also with projection, with prefer_columnar=false" } else { "" },
+        if thorough { " and select_iter" } else { "" },
+        if thorough { "" } else { " (text: every second atom, alternating with depth)" },
+        pl.pairs.len(),
+        pl.triples.len(),
+        if thorough { "2nd" } else { "5th" },
+        if pl.text_agg_atoms_step == 2 { "2nd" } else { "6th" },
+        if pl.text_agg_pairs_step == 1 { "such" } else { "3rd such" },
+        pl.limit_set.len(),
+        if pl.all_batches { "every batch size" } else { "one rotating batch size per max_rows" },
+        if pl.all_batches { ", both" } else { ", alternating" },
+        pl.write_set.len(),
+        if pl.write_all_variants { "through each" } else { "through one (rotating with the condition and the depth)" }
+    ));
+    rep.rule("aggregates: COUNT(col) must equal the number of rows satisfying the condition whose col is not NULL; SUM/AVG/MIN/MAX must be obtainable by SOME fold order over exactly the values of those rows; select_distinct must return a duplicate-free subset of those rows in which every one of them is represented by a row with equal key cells; grouped counts must add up per key over exactly those rows");
     rep.assume("the oracle is Condition::evaluate applied to the reference rows (the property names it as the definition of 'satisfies'); reference rows are checked against the slab after every mutation");
     rep.assume("the in-memory ordered index is a function of the mutation history summarised by the stored _btree: entries (it cannot be observed directly)");
     rep.assume("text is read with AND binding tighter than OR (the repository's own AST parser does so); texts the router rejects with an error are counted, not judged");
+    rep.assume("the aggregate functions' treatment of NULL (skipped by COUNT(col)/SUM/AVG/MIN/MAX) is the documented one; only the row set they run over is judged. An answer of the router whose shape the harness does not understand (not one row per statement / group) is counted as unjudged, not as a violation");
     rep.assume("tables of one engine are independent: each replay uses a fresh uniquely named table in a per-thread engine that is replaced every 4096 tables");
 
     if let Some(path) = rep.args.replay.clone() {
@@ -1502,7 +2181,7 @@ fn main() {
     // Part B
     let b_templates: Vec<u8> = if selftest { vec![0] } else if thorough { vec![0, 1, 2, 3, 4, 5] } else { vec![1, 4, 5] };
     let (b_out, b_states) = if probe.is_none() { part_b(&b_templates, &pl, selftest) } else { (Out::default(), 0) };
-    rep.part("five_row_tables", json!({"insert_templates": b_templates, "states": b_states, "evaluations": b_out.evals, "engine_calls": b_out.calls, "index_configurations": ["none", "hash(i)+btree(i)+hash(f)+btree(f)"]}));
+    rep.part("five_row_tables", json!({"insert_templates": b_templates, "states": b_states, "evaluations": b_out.evals, "engine_calls": b_out.calls, "index_configurations": ["none", "hash(i)+btree(i)+hash(f)+btree(f) created after the inserts", "the same indexes created first, rows inserted by one batch_insert"]}));
     eprintln!("[C04] part B: {b_states} five-row states, {} evaluations", b_out.evals);
     states += b_states;
     transitions += b_states * 5;
@@ -1520,10 +2199,28 @@ fn main() {
     rep.set("violating_cases_by_signature", json!(total.by_sig));
     rep.part("exploration", json!({"depth": depth, "alphabet": alpha.len(), "max_rows": max_rows, "per_depth": per_depth, "states_with_index_and_2_rows": indexed_states}));
     rep.part("battery", json!({"atoms": pl.full.len() + 1, "pairs": pl.pairs.len(), "triples": pl.triples.len(), "limit_and_aggregate_conditions": pl.limit_set.len(), "update_delete_conditions": pl.write_set.len(), "distinct_expected_id_sets": total.outcomes.len()}));
-    rep.part("text", json!({"router_queries_answered": total.text_ok, "router_queries_rejected_with_error": total.text_err}));
+    rep.part("text", json!({"router_queries_answered": total.text_ok, "router_queries_rejected_with_error": total.text_err, "router_answers_of_unexpected_shape_not_judged": total.text_unjudged}));
+    let ep: BTreeMap<&str, u64> = EP_NAMES.iter().zip(total.ep.0.iter()).map(|(n, c)| (*n, *c)).collect();
+    let judged: BTreeMap<&str, u64> = (EP_TEXT_LEGACY..EP_BATCH_INSERT).map(|k| (EP_NAMES[k], total.judged[k])).collect();
+    rep.part("entry_points", json!({"calls": ep, "text_statements_answered_and_judged": judged, "count_column_calls_on_an_index_path_whose_candidates_strictly_include_the_answer": total.cc_superset}));
+    rep.add("count_column_calls", total.ep[EP_COUNT_COLUMN]);
     rep.part("limit", json!({"conditions_skipped_because_select_already_wrong": total.skipped_limit}));
     rep.sample(json!({"ops": show_seq(&deepest), "query": "i >= 0 (and every other battery condition)"}));
     rep.set("explanation", json!("no separate model of the engine: every mutation and query ran on the real RelationalEngine / QueryRouter; the reference is a BTreeMap of rows filtered with Condition::evaluate"));
+    if !selftest && probe.is_none() {
+        let unused: Vec<&str> = EP_NAMES.iter().zip(total.ep.0.iter()).filter(|(_, c)| **c == 0).map(|(n, _)| *n).collect();
+        if !unused.is_empty() {
+            rep.machinery(&format!("vacuous: entry points never called: {unused:?}"));
+        }
+        if total.cc_superset < 100 {
+            rep.machinery("vacuous: count_column hardly ever ran on index candidates that strictly include the answer");
+        }
+        // every kind of text must actually be answered and judged
+        let unanswered: Vec<&str> = (EP_TEXT_LEGACY..EP_BATCH_INSERT).filter(|k| total.judged[*k] * 2 < total.ep[*k] || total.judged[*k] == 0).map(|k| EP_NAMES[k]).collect();
+        if !unanswered.is_empty() {
+            rep.machinery(&format!("vacuous: the router rejected (or answered in an unknown shape) more than half of the texts of: {unanswered:?}"));
+        }
+    }
     if !selftest && (states < 50 || total.outcomes.len() < 8 || (probe.is_none() && total.nontrivial < 1000)) {
         rep.machinery("vacuous exploration: too few states / distinct outcomes");
     }
